@@ -24,6 +24,7 @@ func checkC13(c *Ctx, r *Report) {
 		"the lexer goroutine and the parser communicate only through the unbuffered token channel; a lexer blocked on a send after the parser has stopped is not a hang of the process",
 		"grammar analysis after parsing (closures, lookaheads, table packing) terminates: finite fixpoints, not checked by this property's rules")
 	c13Parser(c, r)
+	c13ChannelReaders(c, r)
 	c13Lexer(c, r)
 	c13Progress(c, r)
 }
@@ -1055,4 +1056,85 @@ func loopStartsWithNext(info *types.Info, fs *ast.ForStmt) bool {
 		return true
 	})
 	return found
+}
+
+// c13ChannelReaders — the parser never waits for the lexer to finish. The termination argument lets a lexer loop
+// "leave or block on a send" at the end of input (an endless error is one token the parser reads, then stops); that is
+// only a termination argument if every receive from the token channel is the single, loop-free receive in nextToken
+// (whose callers are the parser loops decided by R8). A `for range l.tokens`, a receive inside a loop, or a receive in
+// another function waits for tokens the parser does not need — with a lexer that keeps sending it never returns.
+func c13ChannelReaders(c *Ctx, r *Report) {
+	const clause = "C13.a"
+	fv := lookupField(c, "Parser", "lexer", "tokens")
+	if fv == nil {
+		r.Undecided(clause, "ANCHOR", "Parser.lexer.tokens", "-", "field not found")
+		return
+	}
+	isTokens := func(info *types.Info, e ast.Expr) bool {
+		return fieldVar(info, e) == fv
+	}
+	var sites, bad []string
+	for _, f := range c.AllFuncs() {
+		if f.Pkg.Types.Name() != "parser" {
+			continue
+		}
+		info := f.Pkg.TypesInfo
+		pm := parentMap(f.Decl.Body)
+		inLoop := func(n ast.Node) bool {
+			for cur := pm[n]; cur != nil; cur = pm[cur] {
+				switch cur.(type) {
+				case *ast.ForStmt, *ast.RangeStmt:
+					return true
+				}
+			}
+			return false
+		}
+		ast.Inspect(f.Decl.Body, func(n ast.Node) bool {
+			switch x := n.(type) {
+			case *ast.RangeStmt:
+				if isTokens(info, x.X) {
+					sites = append(sites, f.Name)
+					bad = append(bad, fmt.Sprintf("%s ranges over the token channel at %s: the loop ends only when the lexer closes the channel", f.Name, c.pos(x.Pos())))
+				}
+			case *ast.UnaryExpr:
+				if x.Op == token.ARROW && isTokens(info, x.X) {
+					sites = append(sites, f.Name)
+					if !strings.HasSuffix(f.Name, ".nextToken") {
+						bad = append(bad, fmt.Sprintf("%s receives from the token channel at %s (only nextToken may)", f.Name, c.pos(x.Pos())))
+					} else if inLoop(x) {
+						bad = append(bad, fmt.Sprintf("nextToken receives inside a loop at %s", c.pos(x.Pos())))
+					}
+				}
+			case *ast.SelectStmt:
+				ast.Inspect(x, func(m ast.Node) bool {
+					if e, ok := m.(ast.Expr); ok && isTokens(info, e) {
+						bad = append(bad, fmt.Sprintf("%s uses the token channel in a select at %s", f.Name, c.pos(x.Pos())))
+					}
+					return true
+				})
+			}
+			return true
+		})
+		// the channel value must not be handed to anything else (aliases could be read elsewhere)
+		ast.Inspect(f.Decl.Body, func(n ast.Node) bool {
+			call, ok := n.(*ast.CallExpr)
+			if !ok || builtinName(info, call) == "close" || builtinName(info, call) == "len" || builtinName(info, call) == "cap" {
+				return true
+			}
+			for _, a := range call.Args {
+				if isTokens(info, a) {
+					bad = append(bad, fmt.Sprintf("%s passes the token channel to %s at %s", f.Name, exprString(call.Fun), c.pos(call.Pos())))
+				}
+			}
+			return true
+		})
+	}
+	sortStrings(bad)
+	if len(sites) == 0 {
+		r.Undecided(clause, "R8 WHO-READS", "Parser.lexer.tokens/single-loop-free-receive", c.pos(fv.Pos()), "no receive from the token channel found")
+		return
+	}
+	r.Check(len(bad) == 0, clause, "R8 WHO-READS", "Parser.lexer.tokens/single-loop-free-receive", c.pos(fv.Pos()),
+		fmt.Sprintf("the token channel is read at %d place(s), all of them the loop-free receive in nextToken: nothing waits for the lexer to close the channel", len(sites)),
+		strings.Join(bad, "; "))
 }
